@@ -114,7 +114,7 @@ Section Concrete.
     intros [Hl Hf] Hlt Hs Hr. unfold trie_chain_write. rewrite Hs, Hr.
     replace (8 + refLen)%nat with (refLen + 8)%nat by lia.
     rewrite Nat.mod_same by lia. rewrite Nat.eqb_refl. cbn [negb].
-    rewrite (Hf Hlt). rewrite Hl.
+    rewrite (Hf Hlt). rewrite Nat.eqb_refl. cbn [negb]. rewrite Hl.
     assert (Hpre : (S (length xs) < b ^ S levels_cap)%nat).
     { rewrite Nat.pow_succ_r'. pose proof (pow_ge_1 levels_cap). nia. }
     destruct (push_state_of ne np b Hb levels_cap xs (mkE span ref) Hpre) as (fl & Hw & Hfl).
